@@ -1,5 +1,7 @@
 import J5V.Compile.NoPanicPkg
 import J5V.Compile.AstValueProofs
+import J5V.Generated.SetextFacts
+import J5V.Generated.ImportsFacts
 /-!
 # C07 — the j5s compiler is total and accepts the documented language
 
@@ -127,6 +129,41 @@ example : WfBundle exBundle := by unfold WfBundle; decide
 
 example : inRange .int64 (2 ^ 31) = true := by decide
 example : astToScalar .uint64 (intLit 18446744073709551615) = .ok (.uint 18446744073709551615) := by
+  decide
+
+end J5V.Props.C07
+
+/-! ## Obligations over facts regenerated from the current source (`extract setext`, `imports`) -/
+namespace J5V.Props.C07
+open J5V.Generated.Setext J5V.Generated.Imports
+
+/-- **E4**: every `proto.SetExtension` call of j5convert passes a value whose static Go type is the
+extension's declared type (a mismatch is a run-time panic) -/
+theorem C07_src_setext_types :
+    ∀ row ∈ setExtensionCalls, row.2.2.1 = row.2.2.2 := by decide
+
+theorem C07_src_setext_count : setExtensionCallCount = setExtensionCalls.length := by decide
+
+/-- the import constant that must be in scope where an extension / well-known type is used -/
+def requiredImport (what : String) : Option String :=
+  if what = "ext:validate.E_Field" then some "bufValidateImport"
+  else if what = "ext:list_j5pb.E_Field" then some "j5ListAnnotationsImport"
+  else if what = "ext:messaging_j5pb.E_Service" then some "messagingAnnotationsImport"
+  else if what = "ext:annotations.E_Http" then some "googleApiAnnotationsImport"
+  else if what = "type:.j5.types.date.v1.Date" then some "j5DateImport"
+  else if what = "type:.j5.types.decimal.v1.Decimal" then some "j5DecimalImport"
+  else if what = "type:.j5.types.any.v1.Any" then some "j5AnyImport"
+  else if what = "type:.google.protobuf.Timestamp" then some "pbTimestamp"
+  else if what = "type:googleProtoEmptyType" then some "googleProtoEmptyImport"
+  else none
+
+/-- **E5**: every branch imports the file of what it uses. (Extensions of `j5/ext/v1` need no
+per-branch import: a field, method or service always sits in a file that holds a message, and
+`visitObjectNode` / `visitOneofNode` import it — last two conjuncts.) -/
+theorem C07_src_branch_imports :
+    (∀ row ∈ uses, ∀ imp, requiredImport row.2.2.1 = some imp → imp ∈ row.2.2.2) ∧
+    ("conversionVisitor.visitObjectNode", "", "ext:ext_j5pb.E_Message", ["j5ExtImport"]) ∈ uses ∧
+    ("conversionVisitor.visitOneofNode", "", "ext:ext_j5pb.E_Message", ["j5ExtImport"]) ∈ uses := by
   decide
 
 end J5V.Props.C07
